@@ -82,9 +82,7 @@ class _FracPart:
         if not isinstance(sl, slice) or sl.start not in (None, 0) or sl.step not in (None, 1):
             raise Unsupported("fraction digits indexed other than [:d]")
         d = sl.stop
-        if isinstance(d, SymInt):
-            d = d.__index__()
-        return _FracTrunc(self.x, d)
+        return _FracTrunc(self.x, d)  # d may be symbolic (precision of a writer): SymNumText enumerates it lazily
 
 
 class _FracTrunc:
@@ -115,8 +113,17 @@ class SymNumText:
 
     def __init__(self, kind, x, d):
         self.kind, self.x, self.d = kind, x, d
-        e = _toreal(x.e)
-        self.value = SymReal(z3.simplify(truncate(e, d) if kind == "trunc" else round_half_even(e, d)))
+        self._value = None
+
+    @property
+    def value(self):
+        """the number the numeral denotes; a symbolic digit count is enumerated (by forks) only when the value is needed"""
+        if self._value is None:
+            if isinstance(self.d, SymInt):
+                self.d = self.d.__index__()
+            e = _toreal(self.x.e)
+            self._value = SymReal(z3.simplify(truncate(e, self.d) if self.kind == "trunc" else round_half_even(e, self.d)))
+        return self._value
 
     def __symfloat__(self):
         return self.value
@@ -143,7 +150,7 @@ class SymPosText(SymNumText):
 
     def __init__(self, x):
         self.kind, self.x, self.d = "exact", x, None
-        self.value = x
+        self._value = x
 
 
 class SymBoolText:
@@ -195,7 +202,10 @@ def format_float_positional(x, *a, **k):
 
 def sym_format(value, spec=""):
     if isinstance(value, (SymReal, SymInt)) and spec.startswith(".") and spec.endswith("f"):
-        d = int(spec[1:-1])
+        from . import strs
+
+        d = strs.single_token(spec[1:-1])
+        d = int(spec[1:-1]) if d is None else d
         return SymNumText("round", SymReal(_toreal(value.e)), d)
     if isinstance(value, Sym):
         raise Unsupported(f"format(symbolic, {spec!r})")
